@@ -1,3 +1,4 @@
 pub mod cid;
 pub mod data;
 pub mod show;
+pub mod tracewf;
